@@ -441,7 +441,15 @@ func main() {
 							{cProto: []string{"a"}, sProto: "a", cBuf: cb, sHeader: "short"},
 							{cProto: []string{"a"}, sProto: "a", cBuf: cb, sHeader: "pad"},
 							{cBuf: cb, sProto: "fail"},
+							// responses that never complete: nothing at all, a head cut short, a body
+							// shorter than announced
+							{cBuf: cb, sProto: "fail-no-response"},
+							{cBuf: cb, sProto: "fail-head-cut"},
+							{cBuf: cb, sProto: "fail-body-short"},
 						} {
+							if strings.HasPrefix(cfg.sProto, "fail-") && tr != 0 {
+								continue
+							}
 							for _, cbs := range [][2]bool{{true, true}, {true, false}, {false, true}} {
 								cases = append(cases, dcase{cfg, tr, ch, cbs[0], cbs[1], false})
 								if ch != 1 {
@@ -473,6 +481,11 @@ func main() {
 							if dc.p.sProto == "fail" {
 								body := "nope"
 								fmt.Fprintf(&out, "HTTP/1.1 400 Bad Request\r\nContent-Length: %d\r\n\r\n%s", len(body), body)
+							} else if dc.p.sProto == "fail-no-response" {
+							} else if dc.p.sProto == "fail-head-cut" {
+								out.WriteString("HTTP/1.1 101 Switching Protocols\r\nUpgrade: webso")
+							} else if dc.p.sProto == "fail-body-short" {
+								out.WriteString("HTTP/1.1 400 Bad Request\r\nContent-Length: 10\r\n\r\nnope")
 							} else {
 								u := dc.p.upgrader()
 								if dc.p.sHeader == "pad" {
